@@ -257,6 +257,8 @@ pub struct GenCfg {
 	pub allow_unknown_logical: bool,
 	/// restrict names to ones that are legal static identifiers in any position
 	pub weird_names: bool,
+	/// names, field names and symbols are long random identifiers (C08 table coverage)
+	pub long_names: bool,
 }
 
 impl Default for GenCfg {
@@ -270,6 +272,7 @@ impl Default for GenCfg {
 			misplaced_logical: true,
 			allow_unknown_logical: true,
 			weird_names: true,
+			long_names: false,
 		}
 	}
 }
@@ -308,7 +311,32 @@ impl<'t, 'd> SchemaGen<'t, 'd> {
 		self.gen_at(0, false)
 	}
 
+	fn random_ident(&mut self) -> String {
+		const FIRST: &[u8] = b"ABCDEFGHIJKLMNOPQRSTUVWXYZabcdefghijklmnopqrstuvwxyz_";
+		const REST: &[u8] = b"ABCDEFGHIJKLMNOPQRSTUVWXYZabcdefghijklmnopqrstuvwxyz_0123456789";
+		let n = 1 + self.tape.below(24);
+		let mut s = String::new();
+		s.push(*self.tape.pick(FIRST) as char);
+		for _ in 1..n {
+			s.push(*self.tape.pick(REST) as char);
+		}
+		s
+	}
+
 	fn fresh_name(&mut self) -> String {
+		if self.cfg.long_names {
+			let simple = self.random_ident();
+			let ns = if self.tape.bool() { Some(format!("{}.{}", self.random_ident(), self.random_ident())) } else { None };
+			let mut full = match &ns {
+				Some(ns) => format!("{ns}.{simple}"),
+				None => simple.clone(),
+			};
+			while self.used_names.contains(&full) || ["null", "boolean", "int", "long", "float", "double", "bytes", "string", "record", "enum", "array", "map", "fixed"].contains(&full.as_str()) {
+				full.push('x');
+			}
+			self.used_names.insert(full.clone());
+			return full;
+		}
 		let simple = if self.cfg.weird_names && self.tape.chance(40) {
 			*self.tape.pick(WEIRD_NAMES)
 		} else {
@@ -504,19 +532,22 @@ impl<'t, 'd> SchemaGen<'t, 'd> {
 		self.open.push((name.clone(), false));
 		self.collecting.push(Vec::new());
 		let mut fields = Vec::new();
-		let mut used: HashSet<&str> = HashSet::new();
+		let mut used: HashSet<String> = HashSet::new();
 		for _ in 0..nfields {
-			let mut fname = *self.tape.pick(FIELD_NAMES);
-			if used.contains(fname) {
+			let mut fname: String = (*self.tape.pick(FIELD_NAMES)).to_string();
+			if self.cfg.long_names {
+				fname = self.random_ident();
+			}
+			if used.contains(&fname) {
 				// find an unused one deterministically
 				match FIELD_NAMES.iter().find(|n| !used.contains(**n)) {
-					Some(n) => fname = n,
+					Some(n) => fname = n.to_string(),
 					None => break,
 				}
 			}
-			used.insert(fname);
+			used.insert(fname.clone());
 			let fs = self.gen_at(depth + 1, false);
-			fields.push((fname.to_string(), fs));
+			fields.push((fname, fs));
 		}
 		self.open.pop();
 		let refs = self.collecting.pop().unwrap_or_default();
@@ -533,6 +564,9 @@ impl<'t, 'd> SchemaGen<'t, 'd> {
 		let mut symbols: Vec<String> = Vec::new();
 		for _ in 0..n {
 			let mut s = (*self.tape.pick(SYMBOLS)).to_string();
+			if self.cfg.long_names {
+				s = self.random_ident();
+			}
 			let mut k = 0;
 			while symbols.contains(&s) {
 				k += 1;
@@ -801,14 +835,16 @@ pub struct Speller<'t, 'd> {
 	pub noise: bool,
 	/// labels of spelling features used
 	pub used: HashSet<&'static str>,
+	/// allow leaving out a decimal's `scale` when it is 0
+	pub omit_zero_scale: bool,
 }
 
 impl<'t, 'd> Speller<'t, 'd> {
 	pub fn plain() -> Speller<'static, 'static> {
-		Speller { tape: None, noise: false, used: HashSet::new() }
+		Speller { tape: None, noise: false, used: HashSet::new(), omit_zero_scale: false }
 	}
 	pub fn with_tape(tape: &'t mut Tape<'d>, noise: bool) -> Self {
-		Speller { tape: Some(tape), noise, used: HashSet::new() }
+		Speller { tape: Some(tape), noise, used: HashSet::new(), omit_zero_scale: true }
 	}
 	fn below(&mut self, n: usize) -> usize {
 		match &mut self.tape {
@@ -990,7 +1026,12 @@ impl<'t, 'd> Speller<'t, 'd> {
 					attrs.push(("logicalType".into(), json_str(l.name())));
 					if let MLogical::Decimal { precision, scale } = l {
 						attrs.push(("precision".into(), precision.to_string()));
-						attrs.push(("scale".into(), scale.to_string()));
+						if *scale == 0 && self.omit_zero_scale && self.below(2) == 1 {
+							// scale is optional and defaults to 0 (specification, Decimal)
+							self.used.insert("decimal-scale-omitted");
+						} else {
+							attrs.push(("scale".into(), scale.to_string()));
+						}
 					}
 				}
 				if self.noise {
@@ -1298,8 +1339,28 @@ pub fn to_nodes(root: &MSchema) -> Vec<cs::SchemaNode> {
 		};
 		idx
 	}
+	// pass 0: node indices of definitions (pre-order over non-Ref nodes), so that
+	// forward references can be resolved
+	fn index(s: &MSchema, next: &mut usize, names: &mut HashMap<String, usize>) {
+		if let MType::Ref(_) = &s.ty {
+			return;
+		}
+		let idx = *next;
+		*next += 1;
+		if let Some(n) = s.fullname() {
+			names.insert(n.to_string(), idx);
+		}
+		match &s.ty {
+			MType::Array(i) | MType::Map(i) => index(i, next, names),
+			MType::Union(bs) => bs.iter().for_each(|b| index(b, next, names)),
+			MType::Record { fields, .. } => fields.iter().for_each(|(_, f)| index(f, next, names)),
+			_ => {}
+		}
+	}
+	let mut names = HashMap::new();
+	index(root, &mut 0, &mut names);
 	let mut nodes = Vec::new();
-	go(root, &mut nodes, &mut HashMap::new());
+	go(root, &mut nodes, &mut names);
 	nodes
 }
 
